@@ -35,11 +35,15 @@ def main():
     confirm_only = "--confirm-only" in sys.argv
     seed = f"/tmp/seed-{prop}/{which}"
     wt = f"/tmp/wt-{prop}"
+    if "--wt" in sys.argv:
+        wt = sys.argv[sys.argv.index("--wt") + 1]
     notes = json.load(open(os.path.join(seed, "notes.json")))
     patch = os.path.join(seed, "patch.diff")
     demo_path = notes["demo_path"]
     demo_src = os.path.join(seed, os.path.basename(demo_path))
     demo_cmd = notes["demo_cmd"]
+    if "--wt" in sys.argv:
+        demo_cmd = re.sub(r"CARGO_TARGET_DIR=\S+", f"CARGO_TARGET_DIR={wt}/target", demo_cmd)
     if "CARGO_TARGET_DIR" not in demo_cmd:
         demo_cmd = f"CARGO_TARGET_DIR={wt}/target " + demo_cmd
     ran = []
